@@ -633,3 +633,28 @@ CHECKS["C15"]["lean_modules"] = CHECKS["C15"]["lean_modules"] + ["SycVerif.Props
 CHECKS["C15"]["theorems"] += [AS + n for n in ["C15_superseded_while_finishing", "C15_superseded_while_finishing_obs"]]
 CHECKS["C15"]["status"] += ("; a fetch that is superseded WHILE it is finishing (its own last step changes the dependency; repair D28, mode resourceself): "
     "in the machine the change comes first, and the completion of the superseded fetch changes nothing (C15_superseded_while_finishing)")
+
+# --- batch2 views are part of the SSR model (VSpec.batch2): keys for ALL views are a permutation of the dense interval
+CHECKS["C12"]["theorems"] += [SS + n for n in ["C12_keys_all", "C12_keys_mem", "buildList_keys_perm", "buildList_counter"]]
+CHECKS["C12"]["status"] += ("; views with a batch made while they are built (VSpec.batch2: two regions that take their keys in the order in which end_batch re-runs them, "
+    "not in document order) are in the model: for ALL views the keys are a duplicate-free PERMUTATION of (s,k)…(s,k'-1) and the counter advances by the number of elements "
+    "(C12_keys_all, C12_keys_mem); the document-order statement C12_keys holds for views without batch2 (NoBatch2List), a decide example shows it fails with it")
+# --- reader boundaries with a task of their own, observers that write the dependency, self-superseding fetches: in the model
+CHECKS["C13"]["lean_modules"] = CHECKS["C13"]["lean_modules"] + ["SycVerif.Props.C13ReaderTasks"]
+CHECKS["C13"]["theorems"] += [AS + n for n in ["C13_readertask_inv", "C13_readertask_aligned", "C13_readertask_loading", "C13_taskDone_base", "C13_taskDone_others",
+    "C13_taskDone_carrier", "C13_taskDone_at_most_one", "C13_readertask_refines_init", "C13_readertask_readersOk", "C13_readertask_released", "C13_readertask_refetch",
+    "rwStep_eq", "C13_rw_reachable", "C13_rw_released", "C13_rw_fires", "C13_rw_after"]]
+CHECKS["C13"]["status"] += ("; reader boundaries with a task of their own (machine ResRT/rtStep, Props/C13ReaderTasks): the tasks never influence the resource machine (refinement "
+    "C13_readertask_refines_init: every C13Readers theorem transfers), completing a task changes the loading state of its carrier only, and a recorded reader whose task is pending when a "
+    "refetch starts is STILL loading after its task completes, over every stale completion, until the latest fetch delivers (C13_readertask_refetch); observers that write the dependency "
+    "when their boundary resolves (rwStep): each step is one or two machine steps, the reachability invariant is kept")
+CHECKS["C15"]["lean_modules"] = CHECKS["C15"]["lean_modules"] + ["SycVerif.Props.C13ReaderTasks"]
+CHECKS["C15"]["theorems"] += [AS + n for n in ["C15_self_supersedes", "C15_self_supersedes_eq", "C15_self_otherwise", "runSelf_eq_rrun", "C15_self_no_delivery", "C15_self_invariants",
+    "C15_self_value_is_latest_completed", "C15_self_loading_iff_latest_outstanding"]]
+CHECKS["C15"]["status"] += ("; selfStep (the fetch future moves the dependency on as its last step) is a machine step of a translated history (runSelf_eq_rrun), so every C15 invariant holds "
+    "for such runs (C15_self_invariants); the superseded completion delivers nothing (C15_self_no_delivery)")
+
+CHECKS["C12"]["manifest_text"] = CHECKS["C12"]["manifest_text"].replace(
+    "the stamped keys are exactly (s,k),(s,k+1),… in document order — dense and duplicate-free — and the counter advances by the number of elements (C12_keys, C12_keys_nodup)",
+    "the stamped keys are a duplicate-free permutation of (s,k),(s,k+1),… and the counter advances by the number of elements (C12_keys_all, C12_keys_nodup); "
+    "they are in document order for every view without a batch made while it is built (C12_keys; with such a batch the regions take their keys in the order in which the batch re-runs them)")
